@@ -108,7 +108,25 @@ def run_par(v, e, agg, names, stages, perm, workers, via):
             h = (h * 131 + x) % M
         return h
     kw = {"max_workers": workers, "aggregator": aggregator if agg else None}
-    if via == "steps":
+    if isinstance(via, tuple):
+        # ("hist", init, ops): the model is built from `init` (names), then steps are removed / added; `names` is the list the
+        # history leaves behind (python list model), and only those branches are ever run
+        _, init, hops = via
+        m = ParallelModel(**kw)
+        cur = []
+        fidx = {nm: i for i, nm in enumerate(names)}
+
+        def br_for(nm):
+            return branch(fidx[nm]) if nm in fidx else (lambda x, *a, **k: x)
+        for nm in init:
+            m.add_step(br_for(nm), nm); cur.append(nm)
+        for op in hops:
+            if op[0] == "r":
+                m.remove_step(op[1]); cur.pop(op[1])
+            else:
+                m.add_step(br_for(op[1]), op[1]); cur.append(op[1])
+        assert cur == list(names), (cur, names)
+    elif via == "steps":
         m = ParallelModel(steps=[(names[i], branch(i)) for i in range(n)], **kw)
     else:
         m = ParallelModel(**kw)
@@ -371,6 +389,24 @@ def _cases(ctx):
                     if n >= 4 and w not in (None, n) and agg == 0 and rng.random() < 0.5:
                         continue
                     yield ("par", rng.randrange(1000), rng.randrange(3), agg, tuple(names), tuple(stages), tuple(perm), w, rng.choice(["steps", "add"]))
+    # parallel models built through add / remove histories: the declared order is what the history leaves behind
+    for _ in range(60 if ctx.thorough else 24):
+        ninit = rng.randint(2, 4)
+        init = ["h%d" % i for i in range(ninit)]
+        cur, hops, fresh = list(init), [], ninit
+        for _ in range(rng.randint(1, 5)):
+            if cur and rng.random() < 0.55:
+                i = rng.randrange(len(cur) - (1 if len(cur) > 1 and rng.random() < 0.7 else 0))    # mostly not the last one
+                hops.append(("r", i)); cur.pop(i)
+            else:
+                nm = "h%d" % fresh; fresh += 1
+                hops.append(("a", nm)); cur.append(nm)
+        if len(cur) < 2 or len(cur) > 5:
+            continue
+        stages = [rng.randrange(1, 50) for _ in cur]
+        perms = feasible_perms(len(cur), len(cur))
+        for perm in rng.sample(perms, min(len(perms), 4)) + [tuple(reversed(range(len(cur))))]:
+            yield ("par", rng.randrange(1000), rng.randrange(3), rng.randrange(2), tuple(cur), tuple(stages), tuple(perm), None, ("hist", tuple(init), tuple(hops)))
     # branching
     for v in range(0, 12):
         yield ("br", v, 0, ("a:x:2:1:4", "a:y:3:0:5", "a:z:2:0:6", "d:9"))
